@@ -1941,6 +1941,12 @@ class Joiner:
         self.how = how
         self.type_label = type_label
 
+    def _joined(self, join: "Join") -> QueryBuilder:
+        # every way of finishing this join gives a query of its own: the same join() result may be finished twice
+        query = copy(self.query) if getattr(self.query, "immutable", True) else self.query
+        query.do_join(join)
+        return query
+
     def on(self, criterion: Criterion | None, collate: str | None = None) -> QueryBuilder:
         if criterion is None:
             raise JoinException(
@@ -1948,8 +1954,7 @@ class Joiner:
                 "{type} JOIN but was not supplied.".format(type=self.type_label)
             )
 
-        self.query.do_join(JoinOn(self.item, self.how, criterion, collate))  # type:ignore[arg-type]
-        return self.query
+        return self._joined(JoinOn(self.item, self.how, criterion, collate))  # type:ignore[arg-type]
 
     def on_field(self, *fields: Any) -> QueryBuilder:
         if not fields:
@@ -1965,8 +1970,7 @@ class Joiner:
             consituent = Field(field, table=base_table) == Field(field, table=self.item)
             criterion = consituent if criterion is None else (criterion & consituent)
 
-        self.query.do_join(JoinOn(self.item, self.how, criterion))  # type:ignore[arg-type]
-        return self.query
+        return self._joined(JoinOn(self.item, self.how, criterion))  # type:ignore[arg-type]
 
     def using(self, *fields: Any) -> QueryBuilder:
         if not fields:
@@ -1975,20 +1979,17 @@ class Joiner:
                 "a using clause but was not supplied.".format(type=self.type_label)
             )
 
-        self.query.do_join(
+        return self._joined(
             JoinUsing(
                 self.item,  # type:ignore[arg-type]
                 self.how,
                 [Field(field) for field in fields],
             )
         )
-        return self.query
 
     def cross(self) -> QueryBuilder:
         """Return cross join"""
-        self.query.do_join(Join(self.item, JoinType.cross))  # type:ignore[arg-type]
-
-        return self.query
+        return self._joined(Join(self.item, JoinType.cross))  # type:ignore[arg-type]
 
 
 def _replacement_for(table: Table, current_table: Table | None, new_table: Table | None) -> Table | None:
